@@ -88,6 +88,11 @@ func (e *engine) getCompiledModule(module *wasm.Module, listeners []experimental
 func (e *engine) addCompiledModuleToMemory(m *wasm.Module, cm *compiledModule) {
 	e.mux.Lock()
 	defer e.mux.Unlock()
+	if e.compiledModules == nil {
+		// The engine was closed, e.g. concurrently with this compilation:
+		// instantiation of this module will fail with an error.
+		return
+	}
 	e.compiledModules[m.ID] = cm
 	if len(cm.executable) > 0 {
 		e.addCompiledModuleToSortedList(cm)
